@@ -23,6 +23,14 @@ func (c *Ctx) checkPins(f *FC, rule string, pins []pin) {
 	var sh *shaper
 	for _, p := range pins {
 		switch p.kind {
+		case "nf?":
+			// a private helper: when it no longer exists nothing can flow through it (a renamed one is recovered by
+			// its form; a changed one is a new function, whose body the callers' forms contain)
+			if _, ok := f.Prog.ByName[p.fn]; !ok {
+				c.R.OK(rule, p.fn, "closed-form", f.M.Dir, p.why+" (the helper no longer exists: nothing is emitted through it)")
+				continue
+			}
+			c.expectNF(f, rule, p.fn, strings.Split(p.want, " ||| "), p.why)
 		case "nf":
 			// " ||| " separates equally accepted spellings of the same specification
 			c.expectNF(f, rule, p.fn, strings.Split(p.want, " ||| "), p.why)
@@ -36,7 +44,7 @@ func (c *Ctx) checkPins(f *FC, rule string, pins []pin) {
 			ks := ir.NewNormalizer()
 			ks.KeepShared = true
 			got := f.canon(ir.String(f.Path, ks.Func(fn)))
-			p.want = f.canon(p.want)
+			p.want = f.canonSpec(p.want)
 			if got != p.want {
 				if got2, helpers := f.nfInliningNewHelpers(fn, true); len(helpers) > 0 && f.canon(got2) == p.want {
 					c.R.OK(rule, p.fn, "closed-form", c.Pos(f.M.Fset, fn.Decl.Pos()), p.why+" (after inlining the helper(s) added since the review: "+strings.Join(helpers, ", ")+")")
@@ -50,10 +58,24 @@ func (c *Ctx) checkPins(f *FC, rule string, pins []pin) {
 				sh = newShaper(f)
 			}
 			got, fn := sh.Template(p.fn)
-			got, p.want = f.canon(got), f.canon(p.want)
 			if fn == nil {
 				c.R.Undecided(rule, p.fn, "definition", f.M.Dir, "anchor function not found (renamed or removed): "+p.why)
 				continue
+			}
+			got = f.canon(got)
+			// " ||| " separates equally accepted spellings of the same specification
+			alts := strings.Split(p.want, " ||| ")
+			p.want = f.canonSpec(alts[0])
+			for _, a := range alts[1:] {
+				if a = f.canonSpec(a); a == got {
+					p.want = a
+				}
+			}
+			if got != p.want {
+				if _, isTiny := f.tinyTemplates()[p.fn]; isTiny && equalUpToParamOrder(got, p.want, len(fn.Params)) {
+					c.R.OK(rule, p.fn, "template", c.Pos(f.M.Fset, fn.Decl.Pos()), p.why+" (parameters reordered; the call sites are compared in the callers' templates): "+short(got, 300))
+					continue
+				}
 			}
 			c.R.Check(got == p.want, rule, p.fn, "template", c.Pos(f.M.Fset, fn.Decl.Pos()), p.why+": "+short(got, 300),
 				"emission template is not the documented one ("+p.why+"); "+diffHint(got, p.want))
